@@ -92,12 +92,19 @@ fn run_case(arena: &mut Arena, c: &Case) -> Outcome {
     let aligned = base % a == 0;
     let fits = encode(d, c.v, c.n, 0).is_ok();
     let fits_rounded = encode(d, c.v, ceil(c.n, a), 0).is_ok();
+    let _ = harness::guard::take_drops();
     let r: Result<Option<Result<Observation, Error>>, String> = catch(|| match c.entry {
         Entry::New => Some(c.s.new_in_place(slot.bytes_mut(), c.v, c.kind)),
         Entry::Wrap => Some(c.s.wrap_new_in_place(slot.bytes_mut(), c.v, c.kind)),
         Entry::Default => c.s.default_in_place(slot.bytes_mut()),
     });
     let after = slot.bytes().to_vec();
+    // a destructor that ran on an address inside the buffer treated its previous (raw) bytes as a live value
+    if c.entry == Entry::Default {
+        if let Some(ad) = harness::guard::take_drops().into_iter().find(|ad| *ad >= base && *ad < base + c.n.max(1)) {
+            out.v.push(("C20", "destructor_on_previous_contents".into(), format!("a destructor ran on the buffer's previous bytes at +{} while the default was being written", ad - base)));
+        }
+    }
     let canary = slot.check();
     if let Err(e) = &canary {
         out.v.push(("C14", "canary".into(), e.clone()));
@@ -492,6 +499,53 @@ impl Engine for Emplace {
         m
     }
 
+    /// C17, the mechanism itself: over every instantiation of six generic `portable = true` definitions
+    /// (named / tuple struct, sized enum, unsized struct / enum with FlatVec / FlatString / FlexVec tails)
+    /// with portable and native arguments in every position, `Portable` is implemented exactly when every
+    /// argument is portable per the reference.
+    fn global(&self, args: &Args) -> Accs {
+        let mut m = Accs::new();
+        if !args.wants("C17") {
+            return m;
+        }
+        let mut acc = PropAcc::default();
+        let table = shapes::probe_arg_portable();
+        let is_p = |a: &str| table.iter().find(|t| t.0 == a).expect("argument type in the table").1;
+        for p in shapes::portable_probes() {
+            let p_args: Vec<(&str, bool)> = p.args.iter().map(|a| (*a, is_p(a))).collect();
+            let p = Probed { ty: p.ty, implements: p.implements, args: p_args };
+            let expect = p.args.iter().all(|a| a.1);
+            acc.evaluations += 1;
+            acc.count(if expect { "impl_expected" } else { "no_impl_expected" }, 1);
+            acc.distinct.insert(format!("{}:{}", p.ty.split('<').next().unwrap(), p.args.iter().map(|a| if a.1 { 'p' } else { 'n' }).collect::<String>()));
+            if p.implements != expect {
+                let def = p.ty.split('<').next().unwrap();
+                let which: Vec<String> = p.args.iter().enumerate().filter(|(_, a)| !a.1).map(|(i, a)| format!("#{} {}", i, a.0)).collect();
+                let key = if p.implements { "portable_impl_for_native_field" } else { "portable_impl_missing" };
+                acc.violate(format!("emplace/{}/{}", key, def), format!("{}: implements Portable = {}, but the reference says {} (non-portable arguments: {:?})", p.ty, p.implements, expect, which), json!({"engine": "emplace", "global": "portable_impl", "ty": p.ty}));
+            }
+        }
+        acc.sample(json!({"portable_impl_matrix": "GPS/GPT/GPQ/GPU/GPW/GPF x argument types in every position", "instantiations": acc.evaluations}));
+        acc.exhaustive = true;
+        m.insert("C17", acc);
+        m
+    }
+
+    fn replay_global(&self, case: &serde_json::Value) -> bool {
+        let ty = case["ty"].as_str().unwrap_or("");
+        let table = shapes::probe_arg_portable();
+        for p in shapes::portable_probes() {
+            if p.ty == ty {
+                let p = Probed { ty: p.ty, implements: p.implements, args: p.args.iter().map(|a| (*a, table.iter().find(|t| t.0 == *a).unwrap().1)).collect() };
+                let expect = p.args.iter().all(|a| a.1);
+                println!("{}: implements Portable = {}; arguments (portable per reference): {:?}; expected {}", p.ty, p.implements, p.args, expect);
+                return p.implements != expect;
+            }
+        }
+        println!("replay: unknown instantiation {}", ty);
+        false
+    }
+
     fn replay(&self, s: &'static dyn ShapeDyn, case: &serde_json::Value) -> bool {
         let d = s.desc();
         let a = d.align();
@@ -533,6 +587,12 @@ impl Engine for Emplace {
         }
         !o.v.is_empty()
     }
+}
+
+struct Probed {
+    ty: &'static str,
+    implements: bool,
+    args: Vec<(&'static str, bool)>,
 }
 
 fn main() {
